@@ -155,6 +155,16 @@ def m_find_char(ex, args, callee):
     return ex.none()
 
 
+def m_split_once(ex, args, callee):
+    s = dv(args[0])
+    if isinstance(s, str): s = SB(list(s.encode()))
+    pred = sep_pred(ex, args[1])
+    for i, b in enumerate(s.bs):
+        if ex.truth(pred(b)):
+            return ex.some(Tup([Cell(SB(s.bs[:i])), Cell(SB(s.bs[i + 1:]))]))
+    return ex.none()
+
+
 def m_str_index(ex, args, callee):
     s, r = dv(args[0]), args[1]
     f = [c.v for c in r.fields[None]]
@@ -203,5 +213,6 @@ MODELS = [
     (r'<impl str>::to_lowercase$|<impl str>::to_ascii_lowercase$', m_to_lowercase),
     (r'<impl str>::trim_end$', m_trim_end), (r'<impl str>::trim_start$', m_trim_start), (r'<impl str>::trim$', m_trim),
     (r'<impl str>::find::<', m_find_char),
+    (r'<impl str>::split_once::<', m_split_once),
     (r'str as Index<', m_str_index),
 ]
